@@ -146,6 +146,15 @@ func TestVerif_C13_Malformed(t *testing.T) {
 		c.Eval(true, "replay")
 		return
 	}
+	// regression tier: the inputs that crashed or over-allocated on the pinned tree (repaired by cd12b1e), and the
+	// shapes of later seeded changes, run first and do not depend on the generator
+	for _, in := range []string{"$-2\r\n", "*-2\r\n", "%-1\r\n", "~-5\r\n", ">-3\r\n", "|-1\r\n+a\r\n", "$?\r\n;-5\r\n", "!-2\r\n", "=-9\r\n",
+		"*1073741824\r\n", "%1073741824\r\n", "$1073741824\r\n", "$99999999999999999999\r\n", "*9223372036854775807\r\n", "%4611686018427387904\r\n", "%9223372036854775807\r\n",
+		"*1000000\r\n*1000000\r\n*1000000\r\n*1000000\r\n:1\r\n", "$268435456\r\n" + strings.Repeat("x", 70000)} {
+		c13Decode(c, t, []byte(in), nil, 4096)
+		c13Decode(c, t, []byte(in), []int{1}, 32)
+		c.Eval(true, "regression:"+in)
+	}
 	rapid.Check(t, func(t *rapid.T) {
 		in := genMalformed(t)
 		sizes, bufsz := rgen.Sizes(t), rgen.BufSize(t)
